@@ -314,6 +314,18 @@ pub fn is_known(k: &[KnownFinding], v: &Violation) -> Option<KnownFinding> {
 // batch
 // ---------------------------------------------------------------------------------------------
 
+/// run bound of the thorough tier per check (measured: CPU seconds per thorough run x 16 threads, sized for ~400 s)
+pub fn thorough_runs(id: &str) -> u64 {
+    match id {
+        "C01" => 14_000,
+        "C13" => 8_000,
+        "C14" => 25_000,
+        "C20" => 32_000,
+        "C03" | "C16" | "C17" | "C10" | "C05" => 40_000,
+        _ => 50_000,
+    }
+}
+
 pub struct BatchOutcome {
     pub violations: Vec<(u64, Violation, String)>,
     pub known: Vec<(KnownFinding, u64)>,
@@ -322,7 +334,18 @@ pub struct BatchOutcome {
 pub fn run_batch(spec: &CheckSpec, thorough: bool, base_seed: u64, runs_override: Option<u64>, secs_override: Option<u64>) -> i32 {
     let t0 = Instant::now();
     let threads = std::thread::available_parallelism().map(|n| n.get()).unwrap_or(8).min(16);
-    let max_runs: u64 = runs_override.unwrap_or(if thorough { u64::MAX } else { spec.quick_runs });
+    // The thorough tier is bounded by a fixed number of runs (about 6-7 minutes on 16 cores), so that it explores the
+    // same seeds on every machine and at every load; the wall-clock cap is only a safety net. `--secs N` alone (soak
+    // runs) lifts the run bound.
+    let max_runs: u64 = runs_override.unwrap_or(if thorough {
+        if secs_override.is_some() {
+            u64::MAX
+        } else {
+            thorough_runs(spec.id)
+        }
+    } else {
+        spec.quick_runs
+    });
     let deadline_secs: u64 = secs_override.unwrap_or(if thorough { spec.thorough_secs } else { 600 });
     let next = Arc::new(AtomicU64::new(0));
     let stop = Arc::new(AtomicBool::new(false));
